@@ -109,7 +109,9 @@ def convolve1d(f, weights, axis, mode='reflect', cval=0., out=None):
     _check_mode(mode, cval, 'convolve1d')
     axis = _get_axis(f, axis, 'convolve1d')
     if f.flags.contiguous and len(weights) < f.shape[axis]:
-        weights = np.ascontiguousarray(weights, dtype=np.double)
+        # as in convolve(): the weights are first converted to the type of `f`
+        # (the fast path must not differ from the generic one below)
+        weights = np.ascontiguousarray(weights.astype(f.dtype, copy=False), dtype=np.double)
         indices = [a for a in range(f.ndim) if a != axis] + [axis]
         rindices = [indices.index(a) for a in range(f.ndim)]
         # the caller's buffer is validated against (and filled in) the original axis order
